@@ -2457,3 +2457,287 @@ def load_variant(tree, rel, copies, aux, tag):
     tu.macros = {}
     tu.variant = tag
     return tu
+
+
+# ----------------------------------------------------------------------------
+# extent of the block written by alternative branches (compute vs zero/skip)
+# ----------------------------------------------------------------------------
+def _padd(a, b, sign=1):
+    out = dict(a)
+    for m, c in b.items():
+        out[m] = out.get(m, 0) + sign * c
+    return {m: c for m, c in out.items() if c != 0}
+
+
+def _pmul(a, b):
+    out = {}
+    for ma, ca in a.items():
+        for mb, cb in b.items():
+            m = tuple(sorted(ma + mb, key=str))
+            out[m] = out.get(m, 0) + ca * cb
+    return {m: c for m, c in out.items() if c != 0}
+
+
+def poly(tu, e):
+    """integer polynomial over variable ids: {monomial (sorted tuple of ids): coefficient}; anything that is
+    not +, -, *, a literal or a variable becomes an opaque symbol"""
+    e = strip(e)
+    k = e.get("kind")
+    if k == "IntegerLiteral":
+        try:
+            v = int(e.get("value"))
+            return {(): v} if v else {}
+        except (TypeError, ValueError):
+            pass
+    elif k == "DeclRefExpr" and e["referencedDecl"].get("kind") != "FunctionDecl":
+        return {(e["referencedDecl"]["id"],): 1}
+    elif k == "UnaryOperator" and e.get("opcode") == "-":
+        return {m: -c for m, c in poly(tu, kids(e)[0]).items()}
+    elif k == "BinaryOperator" and e.get("opcode") in ("+", "-"):
+        a, b = kids(e)
+        return _padd(poly(tu, a), poly(tu, b), 1 if e["opcode"] == "+" else -1)
+    elif k == "BinaryOperator" and e.get("opcode") == "*":
+        a, b = kids(e)
+        pa, pb = poly(tu, a), poly(tu, b)
+        if len(pa) * len(pb) <= 64:
+            return _pmul(pa, pb)
+    return {(("opaque", re.sub(r"\s+", "", tu.text_of(e))),): 1}
+
+
+def _loops_of(body):
+    """yield (node, loop stack) for every node; loop stack = tuple of (iv id, bound expr | None, ForStmt)"""
+    todo = [(body, ())]
+    while todo:
+        n, ls = todo.pop()
+        yield n, ls
+        if n.get("kind") == "ForStmt":
+            init, cond, inc, b = for_slots(n)
+            iv = None
+            if init is not None and init["kind"] == "BinaryOperator" and init.get("opcode") == "=":
+                l = strip(kids(init)[0])
+                if l.get("kind") == "DeclRefExpr":
+                    iv = l["referencedDecl"]["id"]
+            elif init is not None and init["kind"] == "DeclStmt":
+                vs = [c for c in kids(init) if c["kind"] == "VarDecl"]
+                if len(vs) == 1:
+                    iv = vs[0]["id"]
+            bound = None
+            if iv is not None and cond is not None and cond.get("kind") == "BinaryOperator" and cond.get("opcode") == "<":
+                a, bb = kids(cond)
+                sa = strip(a)
+                if sa.get("kind") == "DeclRefExpr" and sa["referencedDecl"]["id"] == iv:
+                    bound = bb
+            for x in (init, cond, inc):
+                if x is not None:
+                    todo.append((x, ls))
+            if b is not None:
+                todo.append((b, ls + ((iv, bound, n),)))
+            continue
+        for c in reversed(children(n)):
+            todo.append((c, ls))
+
+
+def row_footprint(prog, g, p):
+    """How callee g fills memory through its pointer parameter p, if it has the shape `rows x row-stride`:
+    list of (rows polynomial over g's PARAMETER INDICES, index of the stride parameter); None if not of that shape.
+      A: out[i * stride + j]          with `for (i = 0; i < rows; ..)`
+      B: p[j] ... ; p += stride;      with the bump inside exactly one loop `for (k = 0; k < rows; ..)`"""
+    if g.body is None:
+        return None
+    pid = {d["id"]: i for i, d in enumerate(g.params)}
+
+    def to_param_poly(e):
+        out = {}
+        for m, c in poly(g.tu, e).items():
+            mm = []
+            for s_ in m:
+                if s_ not in pid:
+                    return None
+                mm.append(pid[s_])
+            out[tuple(sorted(mm))] = c
+        return out
+
+    res = []
+    writes_p = False
+    for n, ls in _loops_of(g.body):
+        k = n.get("kind")
+        lhs = None
+        if k == "BinaryOperator" and n.get("opcode") == "=":
+            lhs = kids(n)[0]
+        elif k == "CompoundAssignOperator":
+            lhs = kids(n)[0]
+            l = strip(lhs)
+            if n.get("opcode") == "+=" and l.get("kind") == "DeclRefExpr" and \
+                    g.pts.get(l["referencedDecl"]["id"]) == {("param", p)}:
+                sp = poly(g.tu, kids(n)[1])
+                if len(sp) == 1 and list(sp.values())[0] == 1 and len(list(sp)[0]) == 1 and list(sp)[0][0] in pid:
+                    if len(ls) == 1 and ls[0][1] is not None:
+                        rows = to_param_poly(ls[0][1])
+                        if rows is not None:
+                            res.append((rows, pid[list(sp)[0][0]]))
+                            continue
+                    return None
+        if lhs is None:
+            continue
+        if g.objects(lhs) != {("param", p)}:
+            continue
+        writes_p = True
+        l = strip(lhs)
+        if l.get("kind") != "ArraySubscriptExpr":
+            continue
+        a, b = kids(l)
+        idx = b if ptrish(qt(a)) else a
+        ip = poly(g.tu, idx)
+        ivs = {x[0]: x for x in ls if x[0] is not None}
+        for m, c in ip.items():
+            if len(m) == 2 and c == 1:
+                for iv_, other in ((m[0], m[1]), (m[1], m[0])):
+                    if iv_ in ivs and other in pid and ivs[iv_][1] is not None:
+                        rows = to_param_poly(ivs[iv_][1])
+                        if rows is None:
+                            return None
+                        res.append((rows, pid[other]))
+    if not writes_p or not res:
+        return None
+    uniq = []
+    for r in res:
+        if r not in uniq:
+            uniq.append(r)
+    return uniq
+
+
+def fill_extents(prog, rels):
+    """For every `if` whose two arms both write, through calls, rows of the block behind the same pointer
+    parameter: compare the row count per call and look for overlapping fills.
+    -> list of dict(func, tu, node, ok, unknown, detail, construct)"""
+    out = []
+    for name in sorted(prog.funcs):
+        f = prog.funcs[name]
+        if f.tu.rel not in rels or f.body is None:
+            continue
+        ifs = []
+        for n, _ in _loops_of(f.body):
+            if n.get("kind") == "IfStmt" and len(kids(n)) == 3:
+                ifs.append(n)
+        for ifn in ifs:
+            arms = []
+            for arm in kids(ifn)[1:]:
+                recs = []
+                for n, ls in _loops_of(arm):
+                    if n.get("kind") != "CallExpr":
+                        continue
+                    names, _ = prog.call_targets(f, n)
+                    args = kids(n)[1:]
+                    for nm in names:
+                        g = prog.funcs.get(nm)
+                        if g is None:
+                            continue
+                        for p in sorted(prog.summary[nm].writes):
+                            if p >= len(args):
+                                continue
+                            objs = f.pts_expr(args[p])
+                            if len(objs) != 1 or list(objs)[0][0] != "param":
+                                continue
+                            root = f._root_of(args[p]) if hasattr(f, "_root_of") else None
+                            fp = row_footprint(prog, g, p)
+                            if fp is None:
+                                recs.append({"q": list(objs)[0][1], "unknown": nm})
+                                continue
+                            for rows_pp, sidx in fp:
+                                if sidx >= len(args):
+                                    continue
+                                rows = {}
+                                bad = False
+                                for m, c in rows_pp.items():
+                                    term = {(): c}
+                                    for ai in m:
+                                        if ai >= len(args):
+                                            bad = True
+                                            break
+                                        term = _pmul(term, poly(f.tu, args[ai]))
+                                    rows = _padd(rows, term)
+                                if bad:
+                                    continue
+                                stride = poly(f.tu, args[sidx])
+                                ap = poly(f.tu, args[p])
+                                # row offset = (address - root pointer) / stride
+                                rowoff = None
+                                if len(stride) == 1 and list(stride.values())[0] == 1 and len(list(stride)[0]) == 1:
+                                    ssym = list(stride)[0][0]
+                                    ptr_terms = [m for m in ap if len(m) == 1 and m[0] in f.pts and m[0] != ssym
+                                                 and ptrish(qt(f.vars.get(m[0], {})))]
+                                    rest = {m: c for m, c in ap.items() if m not in ptr_terms}
+                                    if len(ptr_terms) == 1 and all(ssym in m for m in rest):
+                                        rowoff = {}
+                                        for m, c in rest.items():
+                                            mm = list(m)
+                                            mm.remove(ssym)
+                                            rowoff[tuple(mm)] = c
+                                overlaps = []
+                                if rowoff is not None:
+                                    for iv_, bound, fn_ in ls:
+                                        c = rowoff.get((iv_,))
+                                        if c is None or any(iv_ in m for m in rows):
+                                            continue
+                                        const_rows = rows.get((), 0) if set(rows) <= {()} else None
+                                        if const_rows is None or const_rows > c:
+                                            overlaps.append((f.vars.get(iv_, {}).get("name", "?"), c))
+                                recs.append({"q": list(objs)[0][1], "rows": rows, "stride": stride, "callee": nm,
+                                             "overlaps": overlaps, "node": n})
+                arms.append(recs)
+            if len(arms) != 2 or not arms[0] or not arms[1]:
+                continue
+            for q in sorted({r["q"] for r in arms[0]} & {r["q"] for r in arms[1]}):
+                a0 = [r for r in arms[0] if r["q"] == q]
+                a1 = [r for r in arms[1] if r["q"] == q]
+                pname = f.params[q]["name"]
+                inst = "%s:%s: arms of `if (%s)` writing the block behind *%s" % (
+                    f.tu.rel, name, re.sub(r"\s+", " ", f.tu.text_of(kids(ifn)[0]))[:50], pname)
+                known0 = [r for r in a0 if "rows" in r]
+                known1 = [r for r in a1 if "rows" in r]
+                if not known0 or not known1:
+                    out.append({"func": f, "node": ifn, "ok": True, "unknown": True, "inst": inst,
+                                "detail": "row footprint of %s not of the rows x stride shape" % ", ".join(
+                                    sorted({r["unknown"] for r in a0 + a1 if "unknown" in r}))})
+                    continue
+
+                def show(pl):
+                    terms = []
+                    for m, c in sorted(pl.items(), key=str):
+                        nm_ = "*".join(f.vars.get(s_, {}).get("name", str(s_)) if not isinstance(s_, tuple) else s_[1]
+                                       for s_ in m)
+                        terms.append(("%d" % c) if not m else (nm_ if c == 1 else "%d*%s" % (c, nm_)))
+                    return " + ".join(terms) or "0"
+
+                problems = []
+                r0s = {tuple(sorted(r["rows"].items(), key=str)) for r in known0}
+                r1s = {tuple(sorted(r["rows"].items(), key=str)) for r in known1}
+                undecided = False
+                if len(r0s) == 1 and len(r1s) == 1 and \
+                        {tuple(sorted(r["stride"].items(), key=str)) for r in known0} == \
+                        {tuple(sorted(r["stride"].items(), key=str)) for r in known1}:
+                    d = _padd(known0[0]["rows"], known1[0]["rows"], -1)
+                    if d and set(d) <= {()}:
+                        problems.append("one arm writes %s rows per call (%s), the other %s rows (%s)" % (
+                            show(known0[0]["rows"]), known0[0]["callee"], show(known1[0]["rows"]), known1[0]["callee"]))
+                    elif d:
+                        undecided = True
+                else:
+                    undecided = True
+                ov0 = [o for r in known0 for o in r["overlaps"]]
+                ov1 = [o for r in known1 for o in r["overlaps"]]
+                for ov, mine, other in ((ov0, known0, known1), (ov1, known1, known0)):
+                    if ov and not [o for r in other for o in r["overlaps"]]:
+                        kname, c = ov[0]
+                        r = [r for r in mine if r["overlaps"]][0]
+                        problems.append(
+                            "the %s arm calls %s once per value of `%s`, each call writing %s rows but starting only %d "
+                            "row(s) after the previous one: the calls overlap and together write (trip count + %s - %d) "
+                            "rows, whereas the other arm writes %s rows at the same base" % (
+                                "first" if mine is known0 else "second", r["callee"], kname, show(r["rows"]), c,
+                                show(r["rows"]), c, show(other[0]["rows"])))
+                out.append({"func": f, "node": ifn, "ok": not problems, "unknown": undecided and not problems,
+                            "inst": inst, "detail": "; ".join(problems) if problems else (
+                                "row counts not comparable" if undecided else "same rows per call (%s), no overlapping fill" % show(known0[0]["rows"])),
+                            "pname": pname})
+    return out
